@@ -1097,8 +1097,8 @@ func checkJoinBeforeRelease(c *Ctx, rule string) {
 					}
 				}
 			})
-			// sync.Once.Do(func(){ close(l) }) closures
-			for _, a := range f.AnonFuncs {
+			// sync.Once.Do(func(){ close(l) }) closures, or the method value of a closing method handed to Do
+			for _, a := range withAnon(f)[1:] {
 				eachInstr(a, func(_ *ssa.BasicBlock, _ int, x ssa.Instruction) {
 					if isBuiltin(x, "close") {
 						if fld, _ := chanFieldOf(callOf(x).Args[0]); fld != nil {
